@@ -56,6 +56,27 @@ func goldilocksAdapter() *adapter {
 	ad.mul = func(k *big.Int, p pt) pt { return c.ScalarMult(gScalar(k), p.(*goldilocks.Point)) }
 	ad.mulgen = func(k *big.Int) pt { return c.ScalarBaseMult(gScalar(k)) }
 	ad.combined = func(m, n *big.Int, q pt) pt { return c.CombinedMult(gScalar(m), gScalar(n), q.(*goldilocks.Point)) }
+	ad.isEqual = func(p, q pt) bool { return p.(*goldilocks.Point).IsEqual(q.(*goldilocks.Point)) }
+	ad.isIdentity = func(p pt) bool { return p.(*goldilocks.Point).IsIdentity() }
+	ad.aliasOps = []aliasOp{
+		{"P.Add(P)", func(P, Q pt, k *big.Int) pt { p := P.(*goldilocks.Point); p.Add(p); return p }, expDbl},
+		{"P.Add(Q)-in-place", func(P, Q pt, k *big.Int) pt { p := P.(*goldilocks.Point); p.Add(Q.(*goldilocks.Point)); return p }, expSum},
+		{"P.Double()", func(P, Q pt, k *big.Int) pt { p := P.(*goldilocks.Point); p.Double(); return p }, expDbl},
+		{"P.Neg()", func(P, Q pt, k *big.Int) pt { p := P.(*goldilocks.Point); p.Neg(); return p }, expNeg},
+		{"Curve.Add(P,P)", func(P, Q pt, k *big.Int) pt { p := P.(*goldilocks.Point); return c.Add(p, p) }, expDbl},
+		{"*P=*ScalarMult(k,P)", func(P, Q pt, k *big.Int) pt { p := P.(*goldilocks.Point); *p = *c.ScalarMult(gScalar(k), p); return p }, expMul},
+		{"ScalarMult(k,k-as-both-CombinedMult-scalars)", func(P, Q pt, k *big.Int) pt {
+			s := gScalar(k)
+			return c.CombinedMult(s, s, Q.(*goldilocks.Point))
+		}, func(a, b, k *big.Int) *big.Int { e := new(big.Int).Mul(k, b); return e.Add(e, k) }},
+		{"P-after-being-an-operand", func(P, Q pt, k *big.Int) pt {
+			p := P.(*goldilocks.Point)
+			_ = c.Add(p, Q.(*goldilocks.Point))
+			_ = c.ScalarMult(gScalar(k), p)
+			_ = c.CombinedMult(gScalar(k), gScalar(k), p)
+			return p
+		}, func(a, b, k *big.Int) *big.Int { return a }},
+	}
 	return ad
 }
 
@@ -255,6 +276,22 @@ func fourqAdapter() *adapter {
 	ad.add = func(p, q pt) pt { var R fourq.Point; R.Add(p.(*fourq.Point), q.(*fourq.Point)); return &R }
 	ad.mul = func(k *big.Int, p pt) pt { var R fourq.Point; R.ScalarMult(fqScalar(k), p.(*fourq.Point)); return &R }
 	ad.mulgen = func(k *big.Int) pt { var R fourq.Point; R.ScalarBaseMult(fqScalar(k)); return &R }
+	ad.isIdentity = func(p pt) bool { return p.(*fourq.Point).IsIdentity() }
+	k392 := func(a, b, k *big.Int) *big.Int { e := new(big.Int).Mul(a, k); return e.Mul(e, big.NewInt(392)) }
+	ad.aliasOps = []aliasOp{
+		{"P.Add(P,Q)", func(P, Q pt, k *big.Int) pt { p := P.(*fourq.Point); p.Add(p, Q.(*fourq.Point)); return p }, expSum},
+		{"Q.Add(P,Q)", func(P, Q pt, k *big.Int) pt { q := Q.(*fourq.Point); q.Add(P.(*fourq.Point), q); return q }, expSum},
+		{"P.Add(P,P)", func(P, Q pt, k *big.Int) pt { p := P.(*fourq.Point); p.Add(p, p); return p }, expDbl},
+		{"P.ScalarMult(k,P)", func(P, Q pt, k *big.Int) pt { p := P.(*fourq.Point); p.ScalarMult(fqScalar(k), p); return p }, k392},
+		{"P.ScalarBaseMult(k)-over-old-value", func(P, Q pt, k *big.Int) pt { p := P.(*fourq.Point); p.ScalarBaseMult(fqScalar(k)); return p }, func(a, b, k *big.Int) *big.Int { return k }},
+		{"P-after-being-an-operand", func(P, Q pt, k *big.Int) pt {
+			p := P.(*fourq.Point)
+			var R fourq.Point
+			R.Add(p, Q.(*fourq.Point))
+			R.ScalarMult(fqScalar(k), p)
+			return p
+		}, func(a, b, k *big.Int) *big.Int { return a }},
+	}
 	return ad
 }
 
@@ -383,6 +420,26 @@ func ristrettoAdapter() *adapter {
 	ad.neg = func(p pt) pt { return g.NewElement().Neg(p.(group.Element)) }
 	ad.mul = func(k *big.Int, p pt) pt { return g.NewElement().Mul(p.(group.Element), sc(k)) }
 	ad.mulgen = func(k *big.Int) pt { return g.NewElement().MulGen(sc(k)) }
+	ad.isEqual = func(p, q pt) bool { return p.(group.Element).IsEqual(q.(group.Element)) }
+	ad.isIdentity = func(p pt) bool { return p.(group.Element).IsIdentity() }
+	ad.aliasOps = []aliasOp{
+		{"z.Add(z,y)", func(P, Q pt, k *big.Int) pt { z := P.(group.Element); return z.Add(z, Q.(group.Element)) }, expSum},
+		{"z.Add(x,z)", func(P, Q pt, k *big.Int) pt { z := Q.(group.Element); return z.Add(P.(group.Element), z) }, expSum},
+		{"z.Add(z,z)", func(P, Q pt, k *big.Int) pt { z := P.(group.Element); return z.Add(z, z) }, expDbl},
+		{"z.Dbl(z)", func(P, Q pt, k *big.Int) pt { z := P.(group.Element); return z.Dbl(z) }, expDbl},
+		{"z.Neg(z)", func(P, Q pt, k *big.Int) pt { z := P.(group.Element); return z.Neg(z) }, expNeg},
+		{"z.Mul(z,k)", func(P, Q pt, k *big.Int) pt { z := P.(group.Element); return z.Mul(z, sc(k)) }, expMul},
+		{"z.MulGen(k)-over-old-value", func(P, Q pt, k *big.Int) pt { return P.(group.Element).MulGen(sc(k)) }, func(a, b, k *big.Int) *big.Int { return k }},
+		{"z.Set(x).Add", func(P, Q pt, k *big.Int) pt {
+			z := g.NewElement().Set(P.(group.Element))
+			return z.Add(z, Q.(group.Element))
+		}, expSum},
+		{"x.Copy()", func(P, Q pt, k *big.Int) pt {
+			c := P.(group.Element).Copy()
+			P.(group.Element).Add(P.(group.Element), Q.(group.Element))
+			return c
+		}, func(a, b, k *big.Int) *big.Int { return a }},
+	}
 	return ad
 }
 
